@@ -248,3 +248,72 @@ def check_bump(db, fn):
         if not b[0][4]: probs.append('%s() does not advance m_current' % fn['n'])
         if want == 'bump' and not isinstance(b[0][3], int): probs.append('bump() does not pass Eol::ch')
     return sorted(set(probs))
+
+
+class ConcreteBufMonitor(BaseMonitor):
+    """buffer_input over small concrete windows: the buffer starts at 0, pointers are numbers; the reader may write anything from 0 to the length it is given"""
+    def __init__(self, db):
+        BaseMonitor.__init__(self, db); self.this = None
+
+    def call(self, ex, e, cu, cq, cn, ob, objloc, av, st, fr):
+        if cq == '__assert_fail' or cq.endswith('::__assert_fail'):
+            def g():
+                return
+                yield
+            return g()
+        if cq.startswith('std::unique_ptr<') and cn == 'get' and isinstance(ob, Obj) and st.heap.get(ob.addr, {}).get('__uptr'):
+            def g(): yield 0, st
+            return g()
+        if cq in ('std::min', 'std::max') and len(av) == 2:
+            a = ex.argval(av[0], st); b = ex.argval(av[1], st)
+            if isinstance(a, int) and isinstance(b, int):
+                r = min(int(a), int(b)) if cq == 'std::min' else max(int(a), int(b))
+                def g(): yield r, st
+                return g()
+        if isinstance(ob, Obj) and isinstance(st.heap.get(ob.addr), dict) and st.heap[ob.addr].get('__reader') and cn == 'operator()':
+            vals = [ex.argval(a, st) for a in av]
+            ptr, ln = (vals + [None, None])[:2]
+            if not isinstance(ln, int) or isinstance(ln, bool): raise Unmodelled('reader called with a non-concrete length')
+            st.events.append(('reader', ptr, ln))
+            def g():
+                for r in range(0, max(ln, 0) + 1):
+                    s2 = st.copy(); s2.events.append(('read', r)); yield r, s2
+            return g()
+        return BaseMonitor.call(self, ex, e, cu, cq, cn, ob, objloc, av, st, fr)
+
+
+def check_require_concrete(db, fn, maxima=(1, 2, 3, 4)):
+    """require( amount ) on every small window: buffer [0, M), 0 <= current <= end <= M, amount 0..M+2.  The reader's answer 0 means "end of input" and nothing
+    else, so it must never be asked for 0 bytes; require() returns normally only with the amount buffered or after the reader said 0 to a request of at least
+    one byte; it throws std::overflow_error exactly when current + amount does not fit into the buffer, and before it called the reader."""
+    probs = set(); n = 0
+    for M in maxima:
+        for C in range(0, M + 1):
+            for E in range(C, M + 1):
+                for amount in range(0, M + 3):
+                    mon = ConcreteBufMonitor(db); ex = Exec(db, mon); ex.widen = False; st = State()
+                    cur = st.alloc({'__type': 'inputerator', 'data': C, 'byte': 0, 'line': 1, 'column': 1})
+                    buf = st.alloc({'__uptr': True, 'base': 0}); rd = st.alloc({'__reader': True})
+                    this = Obj(st.alloc({'__type': 'buffer_input', '__buf': True, 'm_reader': Obj(rd), 'm_maximum': M, 'm_buffer': Obj(buf), 'm_current': Obj(cur), 'm_end': E, 'm_source': Unknown('source'), 'private_depth': 0}))
+                    mon.this = this
+                    f = Frame(fn, this=this); ex.frames.append(f)
+                    env = EnvView(st, f.fid)
+                    for p in fn['params']: env[p['id']] = amount if ('unsigned long' in p['t'] or 'size_t' in p['t']) else Unknown('param')
+                    what = 'buffer of %d, current %d, end %d, require( %d )' % (M, C, E, amount)
+                    for comp in ex.run_fn(fn, f, st):
+                        n += 1
+                        s = comp[-1]; kind = comp[0]
+                        readers = [e for e in s.events if isinstance(e, tuple) and e[0] == 'reader']
+                        reads = [e[1] for e in s.events if isinstance(e, tuple) and e[0] == 'read']
+                        if any(r[2] <= 0 for r in readers): probs.add('the reader is asked for %d bytes (%s): its answer 0 is taken for the end of the input' % (min(r[2] for r in readers), what))
+                        Enow = s.heap[this.addr]['m_end']
+                        if isinstance(Enow, int) and Enow > M: probs.add('the end of the buffered data moves beyond the buffer (%s)' % what)
+                        fits = C + amount <= M
+                        if kind == 'throw':
+                            if fits: probs.add('an exception (%s) although the request fits into the buffer (%s)' % (comp[1], what))
+                            elif readers: probs.add('the overflow is reported after the reader was already called (%s)' % what)
+                        else:
+                            if not fits and C + amount > E: probs.add('returns normally although the request does not fit into the buffer: no std::overflow_error (%s)' % what)
+                            elif isinstance(Enow, int) and C + amount > Enow and not (reads and reads[-1] == 0):
+                                probs.add('returns normally with less than the requested amount buffered although the reader did not report the end of the input (%s)' % what)
+    return sorted(probs)[:6], n
